@@ -69,7 +69,7 @@ def parse_details(snap, env):
             cids.append(m.group(1))
             e = re.search(r"epoch=(\d+)", text)
             epoch = int(e.group(1)) if e else -1
-        if re.match(r"^(mm|fx):[a-z0-9_]+:[A-Za-z ]+$", text):
+        if re.match(r"^(mm|fx):[a-z0-9_]+:[A-Za-z ]+(-\d+)?$", text):
             cids.append(text)
         for m in re.finditer(r"fe:(m\d)", text):
             cids.append("fe:" + m.group(1))
@@ -128,7 +128,7 @@ def fault_key(prog):
     ks = []
     for u in UNITS:
         sc = prog["script"].get(u, [])
-        if sc and sc[-1]["op"] in ("raise", "raise2", "retnoup", "failfixture"):
+        if sc and sc[-1]["op"] in ("raise", "raise2", "raise2n", "raise0", "retnoup", "failfixture"):
             ks.append("%s:%s:%s:%s" % (u, sc[-1]["op"], sc[-1]["a"], sc[-1]["b"]))
     return ks
 
@@ -234,6 +234,8 @@ def run(tier, pid):
             ("rt_exp_faults.cfg", ALL, {}),
             ("rt_exp_faults1.cfg", ALL, {}),
             ("rt_exp_details.cfg", ("ext", "tt"), {}),
+            ("rt_exp_nested.cfg", ("ext",), {}),
+            ("rt_exp_triples.cfg", ("ext", "py27", "stream"), {}),
             ("rt_sim.cfg", ALL, dict(workers=4, simulate=dict(num=100, depth=80), seed=rep.seed + 1)),
         ]
         mc_cfgs = (("rt_mc1.cfg", False), ("rt_coded.cfg", True))
@@ -244,6 +246,8 @@ def run(tier, pid):
             ("rt_exp_faults3.cfg", ("ext", "tt", "stream"), {}),
             ("rt_exp_details_t.cfg", ("ext", "tt"), {}),
             ("rt_exp_details2.cfg", ("ext",), {}),
+            ("rt_exp_nested.cfg", ("ext",), {}),
+            ("rt_exp_triples.cfg", ("ext", "py27", "stream"), {}),
             ("rt_sim.cfg", ALL, dict(workers=8, simulate=dict(num=2500, depth=80), seed=rep.seed + 1)),
         ]
         mc_cfgs = (("rt_mc1.cfg", False), ("rt_mc_t.cfg", False), ("rt_coded.cfg", True))
